@@ -86,7 +86,7 @@ def run(ctx):
     rng = ctx.rng
     stats = {"impl_runs": 0, "param_variants": 0, "scores": 0}
     problems = []
-    nmodels = ctx.pick(25, 800)
+    nmodels = 1 if ctx.replay_model else ctx.pick(25, 800)
     nontrivial = 0
     # corpus first: the minimal witness of finding F5 (bigram probabilities {-2,-1,-1,-1}, 1 bit = 2 bins)
     cm = lc.parse_arpa(open(os.path.join(vlib.ROOT, "corpus", "C03", "f5_q.arpa"), "rb").read())
@@ -102,7 +102,7 @@ def run(ctx):
     for mi in range(nmodels):
         big = (mi % 6 == 2)
         hub = (mi % 12 == 5)
-        m = lc.gen_model(rng, max_order=ctx.pick(5, 6), max_vocab=ctx.pick(8, 40), big=big, hub=hub)
+        m = ctx.replay_model or lc.gen_model(rng, max_order=ctx.pick(5, 6), max_vocab=ctx.pick(8, 40), big=big, hub=hub)
         big = big or hub
         sess = lc.Session(ctx, m, "m%d" % mi)
         qs = lc.gen_queries(rng, m, ctx.pick(30, 120)) + (lc.ngram_queries(m) if big else [])
@@ -212,3 +212,8 @@ def run(ctx):
         for sig, what, rq, f in bh_problems:
             ctx.report(sig, what, rq, False)
         ctx.report_proof(pres)
+
+
+def replay(ctx, obj):
+    import sys
+    return lc.lm_replay(sys.modules[__name__], ctx, obj)
